@@ -8,7 +8,7 @@ OTHER_ADDR = 0x21        # a second address of the stack's ECU (prior_from)
 FD_LAST = [29, 45, 4, 5, 8, 9, 12, 13, 16, 17, 20, 21, 28, 44, 1, 59, 60]
 
 
-def gen(rng, k, dll=None, big=False, presend=False):
+def gen(rng, k, dll=None, big=False, presend=False, sync_paced=False):
     forced = dll is not None
     dll = dll or rng.choice(['j1939-21', 'j1939-22'])
     if not forced and k % 4 == 0:
@@ -92,7 +92,11 @@ def gen(rng, k, dll=None, big=False, presend=False):
         # the ECU has just sent a multi-packet message of the same kind to the same destination from ANOTHER of its addresses
         # (completed before this one starts): every frame of this one carries this one's source address
         sc['prior_from'] = dict(size=(rng.randint(61, 130) if fd else rng.randint(9, 30)), seed=rng.getrandbits(30))
-    if presend and role == 'stack-originator' and not bam and 'prior_from' not in sc and rng.random() < 0.3:
+    if sync_paced and not bam and not big and size != 1785 and not (fd and size > 60000):
+        # ... the same with a configured minimum interval between connection-mode packets: it holds across the windows as well
+        role = sc['role'] = 'stack-originator'
+        cmdt_iv = sc['cmdt_iv'] = rng.choice([0.005, 0.02, 0.05])
+    if (sync_paced and role == 'stack-originator' and not bam) or (presend and role == 'stack-originator' and not bam and 'prior_from' not in sc and rng.random() < 0.3):
         # a responder that answers inside the stack's own send call (zero bus latency, zero reply delay): its clear-to-send
         # for the next window is handled before the call that handed over the last packet of the window has returned
         sc['lat'] = [0]
